@@ -1020,6 +1020,23 @@ long sim_syscall_shim(long number, ...)
 // callers, including libstdc++.so. Each passes straight through when the simulation is not active
 // or the caller is not a simulated thread.
 // ================================================================================================
+// first value the wall clock returned to this thread since mark_clock_read() (what a statement's timestamp must be)
+static thread_local bool t_clock_mark_armed = false;
+static thread_local uint64_t t_first_clock_read = 0;
+namespace sim
+{
+void mark_clock_read()
+{
+  t_clock_mark_armed = true;
+  t_first_clock_read = 0;
+}
+uint64_t first_clock_read()
+{
+  t_clock_mark_armed = false;
+  return t_first_clock_read;
+}
+} // namespace sim
+
 using namespace sim;
 
 extern "C"
@@ -1036,6 +1053,11 @@ int clock_gettime(clockid_t clk, struct timespec* ts)
       if (clk == CLOCK_REALTIME || clk == CLOCK_REALTIME_COARSE)
       {
         v += g_cfg.epoch_ns;
+        if (t_clock_mark_armed)
+        {
+          t_clock_mark_armed = false;
+          t_first_clock_read = v;
+        }
       }
       else
       {
